@@ -1,13 +1,13 @@
 import PhyModel.Proofs.StoreWF_AL
 import PhyModel.Proofs.StoreWF_SF2
-/-! Shared layer of the C07 proofs: the invariant `Inv`, `WF` split into three list-level parts
+/-! Shared layer of the C07 proofs: the invariant `Inv0`, `WF` split into three list-level parts
 (`WFG` graph payloads, `WFM` the two maps, `WFD` the `_data` map) so that each operation only has to
 say what it does to the payload list and to each map; transfer along `Perm` / payload rewriting. -/
 namespace PhyModel.Store
 open PhyModel PhyModel.Store PhyModel.Store.Store SF AL
 
 /-- the invariant of C07: the four views agree and every clone has its `_data` entry -/
-def Inv (s : Store) : Prop := WF s ∧ Full s
+def Inv0 (s : Store) : Prop := WF s ∧ Full s
 
 /-- payload part -/
 structure WFG (rs : List NodeRec) : Prop where
@@ -182,7 +182,7 @@ theorem wf_init' (dt : Data) : WF (Store.init dt) := by
     ⟨by simp [Store.init], by simp [Store.init]⟩,
     ⟨by simp [Store.init], by simp [Store.init], by simp [Store.init], by simp [Store.init]⟩⟩
 
-theorem inv_init (dt : Data) : Inv (Store.init dt) := ⟨wf_init' dt, by simp [Full, Store.init]⟩
+theorem inv_init (dt : Data) : Inv0 (Store.init dt) := ⟨wf_init' dt, by simp [Full, Store.init]⟩
 
 theorem dense_init (dt : Data) : Dense (Store.init dt) := by simp [Dense, Store.init]
 
